@@ -74,7 +74,7 @@ static bool g_may_block_seen;
 ssize_t recv(int fd, void *buf, size_t len, int flags)
 {
     (void)fd; g_recv_calls++;
-    CHECK(len == MSGSZ && flags == 0, "C14: one datagram of at most the message size is read");
+    CHECK(len == MSGSZ && (flags & (MSG_PEEK | MSG_WAITALL | MSG_OOB)) == 0, "C14: one datagram of at most the message size is read");
     int m = (int)nd_range(0, 4);
 #ifdef OP_PROCESS
     if (m == 0) m = 1;     /* session bookkeeping only: request contents are the REQ obligation's */
